@@ -98,11 +98,29 @@ func render(ms []mismatch) string {
 }
 
 func TestLiveVsReopened(t *testing.T) {
-	evid.Check(t, 250, 1500, func(t *rapid.T) {
-		w := vworld.Draw(t, worldCfg)
+	evid.Check(t, 250, 1500, func(t *rapid.T) { liveVsReopened(t, worldCfg, false) })
+}
+
+// contentCfg biases worlds towards permanodes whose camliContent points at files with their own
+// modification time, few other claims and no deletes: the permanode orderings by time then depend on
+// blobs (the files) that may arrive after the claims — the case in which an ordering cached by the
+// running corpus can go stale without any later claim to refresh it.
+var contentCfg = vworld.Config{
+	MaxPermanodes: 3, MaxAttrClaims: 5, MaxDeletes: 0, MaxChain: 1,
+	MaxFiles: 3, MaxDirs: 0, MaxOpaque: 0, TwoSigners: false, Withhold: false, RefValues: true,
+	Attrs: []string{"camliContent", "camliContent", "camliContent", "title"},
+}
+
+func TestLiveVsReopenedContentHeavy(t *testing.T) {
+	evid.Check(t, 400, 1500, func(t *rapid.T) { liveVsReopened(t, contentCfg, true) })
+}
+
+func liveVsReopened(t *rapid.T, cfg vworld.Config, alwaysCorpus bool) {
+	{
+		w := vworld.Draw(t, cfg)
 		arriving := w.Arriving()
 		ev, class := vworld.DrawSequential(t, w, arriving, true)
-		withCorpus := rapid.IntRange(0, 3).Draw(t, "withCorpus") != 0
+		withCorpus := alwaysCorpus || rapid.IntRange(0, 3).Draw(t, "withCorpus") != 0
 		// quick tier: memory only (file-backed KVs are cheap on an idle machine but
 		// took minutes under load); thorough: all four back ends.
 		backends := []string{"memory"}
@@ -223,7 +241,7 @@ func TestLiveVsReopened(t *testing.T) {
 			}
 		}
 		live.Await()
-	})
+	}
 }
 
 func allDelivered(arriving []int, delivered map[int]bool) bool {
